@@ -19,7 +19,7 @@ out = ['# Sensitivity', '',
        '## Independently seeded defects (sub-agents saw only the property text)', '',
        'Each was confirmed by `tools/confirm_seed.sh` in a scratch worktree of /repo HEAD: `demo.py` passes on the clean tree and fails with `patch.diff`,',
        'the baseline suite still passes with the patch, and the listed check (quick tier) reports a VIOLATION with the patch applied.',
-       'The full confirmation ran on /repo 78ef7bc; after the last repair (6514bf6) all 40 patches still apply and the quick checks were run again against HEAD + patch (checks only): 40 of 40 caught,',
+       'The full confirmation of rounds 1-2 ran on /repo 78ef7bc; after the last repair (6514bf6) all 40 patches still apply and the quick checks were run again against HEAD + patch (checks only): 40 of 40 caught,',
        'C06-r2 at VERIF_SEED=1 only after the quick tier of C06 had been enlarged from 1600 to 4200 cases (it was caught at seeds 2 and 3 before).', '',
        '| seed | change | needs | confirmation | caught by (signature) |', '|---|---|---|---|---|'] + rows + ['',
        'Round 1 = `seeded/<id>/` (C05 and C10 are second versions, the first ones no longer apply to /repo HEAD and are under `seeded/superseded/`); round 2 = `seeded/<id>-r2/`, produced later against the',
@@ -32,6 +32,13 @@ out = ['# Sensitivity', '',
        'C09 (own compaction during an incoming transfer, states larger than one file buffer), C13 (well-formed frame with undecodable content),',
        'C12 (raising calls with 0, 2+ and keyword arguments), C15 (heap-sort runs on the priority queue), C14 (stale connection replaced, late FIN/RST on it),',
        'C19 (short sync timeouts followed by further calls of the same thread), C06 (two-pass planning of kill points inside a step).', '',
+       'Round 3 = `seeded/<id>-r3/` (20 more, against /repo 6514bf6, again by fresh sub-agents that saw the property text and the summaries of the two earlier changes for that property). First confirmation run: 9 of 20 caught by the check of',
+       'their own property (C02, C03, C04, C05, C09, C11, C14, C17 - the latter after version scales had been added the same hour), C18-r3 by C14 (read-only observers over the real transport, added the same hour; C18 runs on the',
+       'simulated transport and cannot see a change in TCPTransport), C01-r3 by C07, C19-r3 by C02, C06-r3 and C07-r3 by C08 (both are journal changes; the quick tiers of C06/C07 did not reach the needed',
+       'snapshot-install-then-truncate-then-kill history). Missed at first and what was changed: C08-r3 (runs of small appends, so that a head drop keeps several records and fewer bytes than it drops), C10-r3 (repeated membership',
+       'requests whose effect is in place: `redundant`, `specsnap2`), C12-r3 (end phase: every node compacts, one more command), C13-r3 (bulk mode: megabytes of incompressible backlog against buffers that fill at powers of two),',
+       'C15-r3 (list elements equal by value but not by type; contents compared by type and value), C16-r3 (the reference fold of lock commands choked on an extra field of release(): HARNESS-ERROR instead of a verdict; it now takes',
+       'the documented fields and the real-table-vs-reference differential fires), C20-r3 (every 4th C20 case has dynamic membership). After these changes 20 of 20 are caught by a quick tier; C06-r3 and C07-r3 only through C08.', '',
        '## Hand-written mutants', '', 'See `sensitivity_mutants.md` (generated by `tools/sensitivity.py`).', '']
 open(os.path.join(HERE, 'sensitivity.md'), 'w').write('\n'.join(out))
 print('rows', len(rows))
